@@ -17,7 +17,7 @@ class P(MetProp):
     id = "C09"
     rule = ("one range aggregation (all 13 supported functions; unwrap with and without bytes()/duration() conversion and post-filters; offset 0 or a multiple of the lattice; "
             "range smaller than, equal to and larger than the step) over 3-14 records whose timestamps lie on a half-second lattice incl. samples exactly on T-o-r and T-o "
-            "and equal timestamps, 1-3 label sets. Evaluated on the real engine as (1) a range query on a grid, (2) a second range query on a different grid (other start and "
+            "and equal timestamps, 1-3 label sets. Per-second rates also over ranges that are not whole seconds (500ms, 750ms, 1.5s, 2.5s); evaluation parameters carry result limits 0/1/2/5 (which must not touch samples). Evaluated on the real engine as (1) a range query on a grid, (2) a second range query on a different grid (other start and "
             "step) sharing instants with the first, (3) instant queries at shared instants. Demanded on the observed results: every grid point equals the window reading "
             "range_spec_at (exactly the samples in [T-o-r, T-o], grouped by label set, aggregated in arrival order, stamped T; no point for an empty window), and the "
             "vectors at shared instants coincide across the three evaluations; everything must equal the faithful model.")
@@ -46,6 +46,8 @@ class P(MetProp):
             step = rng.choice([S, S, S // 2])
             rng_ns = rng.choice([2, 3, 4]) * step
             k = rng.randint(4, 8)
+        if op in ("rate", "bytes_rate") and not overlap and not longr and rng.random() < 0.6:
+            rng_ns = rng.choice([S // 2, 3 * S // 2, 5 * S // 2, 750 * 10**6])      # per-second rates over a range that is not a whole number of seconds
         start = T0 + rng.randrange(0, 4) * S
         end = start + k * step - rng.choice([0, 0, step // 2])
         grid1 = [start + j * step for j in range(k + 1) if start + j * step <= end]
@@ -94,11 +96,14 @@ class P(MetProp):
         shared = [T for T in grid1 if T in grid2]
         evals = [{"q": b64e(q), "qcoq": e["coq"], "start": start, "end": end, "step": step},
                  {"q": b64e(q), "qcoq": e["coq"], "start": start2, "end": end2, "step": step2}]
+        # the result limit of the evaluation parameters applies to log queries only: a metric query reads every sample
+        for ev in evals:
+            ev["limit"] = rng.choice([0, 0, 1, 2, 5])
         rels = ["MRelRangeSpec 0", "MRelRangeSpec 1"]
         for T in shared:
             rels.append("MRelSameAt 0 1 %d" % (T // 10**6))
         for T in rng.sample(grid1, min(2, len(grid1))):
-            evals.append({"q": b64e(q), "qcoq": e["coq"], "start": T, "end": T, "step": 0})
+            evals.append({"q": b64e(q), "qcoq": e["coq"], "start": T, "end": T, "step": 0, "limit": rng.choice([0, 1, 3])})
             idx = len(evals) - 1
             rels += ["MRelRangeSpec %d" % idx, "MRelSameAt 0 %d %d" % (idx, T // 10**6)]
         return {"kind": op, "recs": [m.g.rec_json(r) for r in recs], "oracle": oracles_coq(), "evals": evals, "rels": rels, "ops": [op],
